@@ -1144,7 +1144,7 @@ Proof.
                | _ => if cc [] f then eval n env f else raise ELoop
                end) = eval n env f).
   { destruct f; try reflexivity; cbv iota in Hc; rewrite Hc; reflexivity. }
-  destruct fv as [| | | | | | |nm ps rest body cenv| |]; try (simpl in Hlz; destruct (length args1); discriminate).
+  destruct fv as [| | | | | | |nm ps rest body cenv| | |]; try (simpl in Hlz; destruct (length args1); discriminate).
   set (fv := VClos nm ps rest body cenv) in *.
   set (flags := lazy_flags fv) in *.
   set (c := length (thunks sa)) in *.
